@@ -94,7 +94,14 @@ PROPS = {
         bounded=[dict(module='vf.rt.bounded_adv', prop='C10',
                       bound='FluxSurfaceAdvection.step / _getLagrangePts / gridStep against the defining formula (degree-5 Lagrange weights, stencil centred on the foot, theta-spline values) for every (rIdx, cIdx), displacements from 1e-15 cells to 2.5 turns, both signs, iota in {0, 0.8, -1.3, 2}, grids 6-20 points, general and uniform-cubic splines, process grids up to 3x2; corollaries (constants, linearity, z-shift commutation, exact circular shift); rtol 1e-9')],
         assumptions=['S1 names the value returned by the spline evaluator passed in (see C07)',
-                     'range of the floor-based real modulo 0 <= x % m < m for m > 0 is a trusted arithmetic fact'],
+                     'range of the floor-based real modulo 0 <= x % m < m for m > 0 is a trusted arithmetic fact',
+                     '_getLagrangePts is verified on its mechanical backward slice on self._shifts / self._thetaShifts '
+                     '(vf/func_slice.py; dropped line numbers per function in functions_under_contract): the barycentric Lagrange '
+                     'weights (np.prod over an axis, np.eye, np.where) are NOT under contract - bounded class-level check only',
+                     'the rotational-transform profile iota passed to _getLagrangePts acts entry by entry on an array of radii '
+                     '(assumed contract iota_fn; Constants.iota is np.full_like(r, iotaVal))',
+                     'floats are mathematical reals: np.floor is the exact floor; storing the integer-valued floats into the int '
+                     'array _shifts is exact'],
     ),
     'C01': dict(
         level='proof',
